@@ -2,6 +2,7 @@ package main
 
 import (
 	"fmt"
+	"math"
 	"os"
 	"runtime"
 	"strings"
@@ -193,9 +194,27 @@ func c14Life(c *mon.Ctx, r *mon.Rand) {
 							rep.AllocateCounter(fmt.Sprintf("dyn%d", pr.Intn(20)), map[string]string{"p": fmt.Sprint(p)}).ReportCount(1)
 						}
 					default:
-						if big != nil && pr.Chance(1, 3) {
+						switch {
+						case big != nil && pr.Chance(1, 3):
 							big.ReportCount(1)
-						} else {
+						case pr.Chance(1, 4):
+							// lookups no allocation prepared: bounds beyond the last one, not a
+							// number, of the other kind - a handle that can be reported on
+							switch pr.Intn(6) {
+							case 0:
+								hv.ValueBucket(3, math.Inf(1)).ReportSamples(1)
+							case 1:
+								hv.ValueBucket(0, math.NaN()).ReportSamples(1)
+							case 2:
+								hv.ValueBucket(3, math.MaxFloat64).ReportSamples(1)
+							case 3:
+								hd.ValueBucket(1, 2).ReportSamples(1)
+							case 4:
+								hv.DurationBucket(time.Millisecond, time.Second).ReportSamples(1)
+							default:
+								hd.DurationBucket(time.Second, time.Duration(math.MaxInt64)).ReportSamples(1)
+							}
+						default:
 							hv.ValueBucket(2, 3).ReportSamples(1)
 						}
 					}
